@@ -114,11 +114,45 @@ End Spec.
 (** ---- parsed texts ---- *)
 Definition empty_node (t : ttree) : bool := is_empty (t_txt t).
 
+(** the lines of a flat pair list: EOI pairs are skipped by every consumer, a CMD pair contributes its
+    (trimmed) text; anything else is not flat *)
+Fixpoint skel (ks : list ttree) : option (list str) :=
+  match ks with
+  | [] => Some []
+  | k :: r =>
+      if t_rule k =? L_EOI then skel r
+      else if t_rule k =? L_CMD then option_map (cons (t_txt k)) (skel r)
+      else None
+  end.
+
 Definition flat_parsed (text : str) (lines : list str) : Prop :=
-  exists p r pairs rule txt tail,
+  exists p r pairs rule txt kids0,
     parse_from l_grammar L_EXP text = POk p r pairs /\
-    map (annotate text) pairs = [TNode rule txt (map cmd_node lines ++ tail)] /\
-    forallb empty_node tail = true.
+    map (annotate text) pairs = [TNode rule txt kids0] /\
+    skel kids0 = Some lines.
+
+Lemma exp_loop_skel (W : Type) rl (eoe : W -> bool) rif rfor rwh il : forall ks lines, skel ks = Some lines ->
+  forall w acc, exp_loop W rl eoe rif rfor rwh il ks w acc =
+                exp_loop W rl eoe rif rfor rwh il (map cmd_node lines ++ []) w acc.
+Proof.
+  induction ks as [|k ks IH]; intros lines H w acc.
+  - injection H as <-. reflexivity.
+  - destruct k as [r x kk]. cbn [skel t_rule t_txt] in H.
+    destruct (r =? L_EOI) eqn:E.
+    + apply N.eqb_eq in E. subst r. cbn [exp_loop t_txt t_rule].
+      destruct (is_empty x); [apply IH, H|].
+      change (L_EOI =? L_CMD) with false. change (L_EOI =? L_EXP_IF) with false.
+      change (L_EOI =? L_EXP_FOR) with false. change (L_EOI =? L_EXP_WHILE) with false.
+      apply IH, H.
+    + destruct (r =? L_CMD) eqn:E2; [|discriminate H]. apply N.eqb_eq in E2. subst r.
+      destruct (skel ks) as [ls|] eqn:S; [|discriminate H]. injection H as <-.
+      cbn [map app exp_loop cmd_node t_txt t_rule].
+      destruct (is_empty x); [apply IH; reflexivity|]. rewrite N.eqb_refl.
+      destruct (str_eqb x kw_continue); [destruct il; [reflexivity | apply IH; reflexivity]|].
+      destruct (str_eqb x kw_break); [destruct il; [reflexivity | apply IH; reflexivity]|].
+      destruct (rl w x) as [w1 crs].
+      destruct (last_is_nonzero (acc ++ crs) && eoe w1); [reflexivity | apply IH; reflexivity].
+Qed.
 
 Lemma run_pairs_one (W : Type) rl fw sv (eoe : W -> bool) n d rule txt kids w :
   run_pairs W rl fw sv eoe n (S d) [TNode rule txt kids] w [] =
@@ -253,12 +287,12 @@ Lemma body_call f : main_at f -> forall text body cmds w,
     /\ last_or_zero sts = fail_status ext cmds.
 Proof.
   intros IH text body cmds w [p [r [pairs [rule [txt [tail [Hp [Hm Ht]]]]]]]] Hok Hu He Hf.
-  unfold run_lines. rewrite Hp, Hm, run_pairs_one.
+  unfold run_lines. rewrite Hp, Hm, run_pairs_one. erewrite exp_loop_skel by exact Ht.
   destruct (IH body cmds Hok Hu
               (run_exp_if shs (XL f) no_words no_setvar s_eoe n (length text))
               (run_exp_for shs (XL f) no_words no_setvar s_eoe n (length text))
               (run_exp_while shs (XL f) no_words no_setvar s_eoe n (length text))
-              tail w [] Ht He Hf eq_refl) as [sts [H1 H2]].
+              [] w [] eq_refl He Hf eq_refl) as [sts [H1 H2]].
   rewrite H1. cbn [app]. exists sts. split; [reflexivity | exact H2].
 Qed.
 
@@ -355,7 +389,7 @@ Proof.
   rewrite run_script_S, Hfile, Hft. cbv zeta.
   change (run_line_of shs (exec_pipe ext file_text n (S fuel))) with (exec_line ext file_text n (S fuel)).
   destruct Hpar as [p [r [pairs [rule [txt [tail [Hp [Hm Ht]]]]]]]].
-  unfold run_lines. rewrite Hp, Hm, run_pairs_one. cbn [map app].
+  unfold run_lines. rewrite Hp, Hm, run_pairs_one. erewrite exp_loop_skel by exact Ht. cbn [map app].
   cbn [forallb] in Hok. apply andb_prop in Hok as [Hl Hr].
   set (w0 := mk_shs (s_eoe w) (set_funcs defs (s_funcs w)) (s_log w)).
   assert (Hx : exec_pipe ext file_text n (S fuel) w0 sete = (mk_shs true (s_funcs w0) (s_log w0), 0%Z)).
@@ -366,7 +400,7 @@ Proof.
               (run_exp_if shs (exec_line ext file_text n (S fuel)) no_words no_setvar s_eoe n (length text_new))
               (run_exp_for shs (exec_line ext file_text n (S fuel)) no_words no_setvar s_eoe n (length text_new))
               (run_exp_while shs (exec_line ext file_text n (S fuel)) no_words no_setvar s_eoe n (length text_new))
-              tail (mk_shs true (s_funcs w0) (s_log w0)) [0%Z] Ht eq_refl eq_refl eq_refl) as [sts [H1 H2]].
+              [] (mk_shs true (s_funcs w0) (s_log w0)) [0%Z] eq_refl eq_refl eq_refl eq_refl) as [sts [H1 H2]].
   rewrite H1. cbn [app s_funcs s_log]. unfold w0. cbn [s_log s_funcs]. f_equal.
   unfold script_status. rewrite last_or_zero_cons0. exact H2.
 Qed.
@@ -427,7 +461,7 @@ Proof.
   rewrite run_script_S, Hfile, Hft. cbv zeta.
   change (run_line_of shs (exec_pipe ext file_text n (S fuel))) with (exec_line ext file_text n (S fuel)).
   destruct Hpar as [p [r [pairs [rule [txt [tail [Hp [Hm Ht]]]]]]]].
-  unfold run_lines. rewrite Hp, Hm, run_pairs_one. rewrite map_app, <- app_assoc.
+  unfold run_lines. rewrite Hp, Hm, run_pairs_one. erewrite exp_loop_skel by exact Ht. rewrite map_app, <- app_assoc.
   cbn [forallb] in Hok. apply andb_prop in Hok as [Hl Hr].
   set (w0 := mk_shs (s_eoe w) (set_funcs defs (s_funcs w)) (s_log w)).
   rewrite (prefix_ext ext file_text n (set_funcs defs (s_funcs w)) rt Htab _ _ _ fuel pre Hpok Hpx _ w0 [] He eq_refl).
@@ -449,7 +483,7 @@ Proof.
               (run_exp_if shs (exec_line ext file_text n (S fuel)) no_words no_setvar s_eoe n (length text_new))
               (run_exp_for shs (exec_line ext file_text n (S fuel)) no_words no_setvar s_eoe n (length text_new))
               (run_exp_while shs (exec_line ext file_text n (S fuel)) no_words no_setvar s_eoe n (length text_new))
-              tail (mk_shs true (s_funcs w1) (s_log w1)) (map ext pre ++ [0%Z]) Ht eq_refl eq_refl Hz) as [sts [G1 G2]].
+              [] (mk_shs true (s_funcs w1) (s_log w1)) (map ext pre ++ [0%Z]) eq_refl eq_refl eq_refl Hz) as [sts [G1 G2]].
   rewrite G1. cbn [s_funcs s_log]. unfold w1, w0. cbn [s_log s_funcs]. rewrite He, <- app_assoc. f_equal.
   unfold script_status. rewrite (last_or_zero_app _ sts Hz). exact G2.
 Qed.
